@@ -23,4 +23,7 @@ macro "epv_pos" : tactic =>
 
 /-- equality of two ring / field expressions, shape-independent -/
 macro "epv_eq" : tactic =>
-  `(tactic| first | rfl | ring | (field_simp; ring) | (simp only [mul_one, one_mul, add_zero, zero_add]; ring))
+  -- `ring1`, not `ring`: the `ring` macro "succeeds" (leaving the goal to `ring_nf`) whenever normalisation makes
+  -- progress, so the later alternatives of a `first` would never be tried
+  `(tactic| first | rfl | ring1 | (field_simp; ring1) | (simp only [mul_one, one_mul, add_zero, zero_add]; ring1)
+                  | (simp only [div_eq_mul_inv, mul_inv, inv_inv]; ring_nf))
